@@ -14,7 +14,7 @@ RULE = (
     "within <=1 deviation of the default over (texture kind(5), volume vector(2), n_grains(4), "
     "parameter set(14)); update alphabet = 6 flows (simple shear, pure shear, generic 3-D with "
     "vorticity, generic with trace, time-dependent, position-dependent along a pathline) x strain "
-    "increment {0.1, 0.5}; ALL sequences to depth 2 (quick) / 3 (thorough) from every root. Long "
+    "increment {0.1, 0.5} + rigid-body rotation + zero gradient + shear fading into spin (15 letters); ALL sequences to depth 2 (quick) / 3 (thorough) from every root. Long "
     "chains: a span of strain 1 split into k in {1,2,5,10,25,50,100} uniform updates and into all 7 "
     "compositions with <=3 parts on a quarter grid. Default-constructed minerals (3500 grains) built "
     "twice per seed. The invariant is evaluated on every stored snapshot after every transition, "
@@ -27,18 +27,22 @@ ASSUMPTIONS = [
     "an update that raises appends nothing and is not expanded (counted in notes.rejected_updates); C07 decides which updates may raise",
     "n_grains <= 8 in histories (3500 for the default-constructed mineral); banded-Jacobian path (n > 4632) outside the bound",
 ]
-BOUND = {"quick": "history depth 2, 12 update letters, <=1 root deviation", "thorough": "history depth 3, <=2 root deviations"}
+BOUND = {"quick": "history depth 2, 15 update letters, <=1 root deviation", "thorough": "history depth 3, <=2 root deviations"}
 CHUNK = 1
 
 
 def ALPHABETS():
-    return {"update_letters": len(H.STEP_LETTERS), "regimes": len(H.REGIMES), "textures": len(H.TEXTURES), "param_sets": len(H.PRM), "n_grains": len(H.NGRAINS)}
+    return {"update_letters": len(LETTERS), "regimes": len(H.REGIMES), "textures": len(H.TEXTURES), "param_sets": len(H.PRM), "n_grains": len(H.NGRAINS)}
 
 
 def warmup():
     H.warm()
 
 
+# update alphabet: the 12 shared letters plus a rigid-body rotation (finite L with D = 0)
+# and a zero gradient -- both are finite velocity gradients and hit the guards of the
+# non-dimensionalisation (found missing by seeded change C01/rigid-rotation-NaN)
+LETTERS = H.STEP_LETTERS + [("rigid", 0.5), ("zero", 0.5), ("tospin", 0.5)]
 COMPOSITIONS = [(4,), (1, 3), (2, 2), (3, 1), (1, 1, 2), (1, 2, 1), (2, 1, 1)]
 CHAIN_K = [1, 2, 5, 10, 25, 50, 100]
 
@@ -146,7 +150,7 @@ def run_case(key):
         return child
 
     if key["part"] == "hist":
-        ns, nt = H.bfs(root, H.STEP_LETTERS, key["depth"], step)
+        ns, nt = H.bfs(root, LETTERS, key["depth"], step)
         res["states"], res["trans"] = ns, nt
     else:  # long chains over a span of strain 1 (unit strain rate => time span 1)
         fl = key["flow"]
